@@ -843,7 +843,7 @@ func (x *ckExec) counter(op ckOp) {
 	switch op.Name {
 	case "net":
 		var buf bytes.Buffer
-		d := level.EmptyChunk(x.secs)
+		d := x.ckDest() // half of the time a chunk that was used before: later edits must not meet anything it held
 		var err error
 		if p, _ := catch(func() {
 			if _, err = x.c.WriteTo(&buf); err == nil {
